@@ -17,6 +17,9 @@
                               Dev switches the deviations of the code as it was found (KNOWN_FINDINGS) and a few
                               plausible bugs (sensitivity).  Dev = {} is the repaired code and satisfies Conforms.
 
+   The three deviations were confirmed on the real code and repaired there (KNOWN_FINDINGS `fixed:` C15); they stay
+   in the model so that TLC keeps showing that Conforms / NoCrash notice them (MC_Config_dev_*.cfg).
+
    Reading of the property (DESIGN 5a): unknown keys and unknown sections are ignored; the default table is the
    one of from_tree (log level `warn`), not Config::default(); only class (accepted / syntax error / validation
    error), file and line of an error are compared, never the message text.
